@@ -301,6 +301,13 @@ def gen_case(tp, tier):
                 a, b = tp.choice(gaps)
                 case['reset'] = {'pat': i, 'at': (a + b) / 2}
                 case['clock'] = 'sys'
+    elif tp.draw(5) == 0 and 'mono' not in repr(case['pats']):
+        # the players are muted from the start and unmuted at an instant
+        # that is not an event's: muted events (rests among them) send
+        # nothing and take their time, what comes after plays as ever
+        # (players and this routine on SystemClock: ordered by logical time)
+        case['mute'] = tp.choice([0.7, 1.3, 2.2])
+        case['clock'] = 'sys'
     return case
 
 
@@ -756,6 +763,12 @@ def program(case, main, lookups):
                     players.append(build_pattern(p).play(clock, 0))
                 else:
                     players.append(build_pattern(p).play())
+            if case.get('mute'):
+                for pl in players:
+                    pl.mute()
+                yield case['mute']
+                for pl in players:
+                    pl.unmute()
             rs = case.get('reset')
             if rs:
                 yield rs['at']
@@ -859,6 +872,9 @@ def check_bundles(world, got, case, latency, viol, stats, rel, lo=1000,
             for t, ev in timeline(case, i, p)[0]:
                 if ev is None:
                     continue            # silent filler (Pdelta)
+                if case.get('mute') and t < case['mute']:
+                    stats['muted-events'] = stats.get('muted-events', 0) + 1
+                    continue            # played while the player was muted
                 e, r = expected_msgs(ev, T0 + t, latency)
                 exp.append((e, ev))
     # Pmono voices first: their commands are taken out of `got`
@@ -1183,6 +1199,9 @@ def run_case(case, tape, ctx):
         # the players end after the longest top-level pattern
         tot = max(timeline(case, i, p)[1]
                   for i, p in enumerate(case['pats']))
+        if case.get('mute'):
+            # (the routine that unmutes the players is a task of the run too)
+            tot = max(tot, case['mute'])
         if abs(nrt['elapsed'] - (T0 + tot)) > 1e-9 * max(1.0, tot):
             viol.add('C14-4', 'total-duration',
                      f'the players ended at {nrt["elapsed"]}, start + total '
